@@ -42,6 +42,14 @@ def check(run):
     cases.append(("exp-symbolic", bytes.fromhex("0a565b00")))
     cases.append(("mulmod-symbolic", bytes.fromhex("09565b00")))
     cases.append(("signextend", bytes.fromhex("600360050b565b00")))
+    # many blocks that jump x many jump targets: the initial graph has (jumps) x (targets + 1) edges -- 65792 for
+    # 256 `jumpdest; jump` blocks.  Refining such a graph takes the implementation about 50 minutes (one solver
+    # query per edge), so these run construction + rendering only (`cfg <code> 0`); the model is evaluated on
+    # them in the thorough tier only (3 minutes per input).
+    many = [("many-edges", bytes.fromhex("5b56") * 256), ("many-edges", bytes.fromhex("5b56") * 300),
+            ("many-edges", bytes.fromhex("5b") * 600 + bytes.fromhex("5b6000355756") * 120),
+            ("many-edges", bytes.fromhex("5b600157") * 260)]
+    many_reqs = [f"cfg {c.hex()} 0" for _, c in many]
     reqs = [f"cfg {c.hex() or '-'} 1" for _, c in cases]
     # the known finding, in its own process, started first (the annotator is quadratic in the
     # block length: about 3 minutes in a debug build)
@@ -78,6 +86,25 @@ def check(run):
             bad_case = bad_case or dict(code=c.hex(), impl_nodes=labels, impl_edges=edges, model=m[:600])
         if len(run.samples) < 4:
             run.samples.append(dict(code=c.hex(), position=k, model_initial=m[:200], impl_refined_edges=len(edges)))
+    many_ans, _ = common.run_harness_parallel(many_reqs, analyze=True, timeout=900, nproc=4)
+    many_model = [None] * len(many)
+    if run.tier == "thorough":
+        many_model, _ = common.coq_eval(IMPORTS, [f"run_pipeline_initial {coq_bytes(list(c))}" for _, c in many], tag="c15many", timeout=2400)
+    for (k, c), a, m in zip(many, many_ans, many_model):
+        run.corr["cases"] += 1
+        dist[k] = dist.get(k, 0) + 1
+        if not (a is not None and a.startswith("ok:")):
+            found += 1
+            if found <= 3:
+                run.violation(dict(property="C15", code=f"{c[:6].hex()}... ({len(c)} bytes, see replay)", position=k, outcome=(a or "no answer")[:300],
+                                   replay=f"python3 -c \"print('cfg '+'{c.hex()}'+' 0')\" | .cache/target/debug/etk-vh-analyze"))
+            continue
+        labels, edges = C.parse_dot(bytes.fromhex(a[3:]).decode())
+        if m is not None:
+            mg = C.parse_model_cfg(m)
+            if mg is None or sorted(labels) != sorted(["<terminate>", "<bad-jump>"] + mg[0]) or sorted(edges) != sorted(mg[1]):
+                dis += 1
+                bad_case = bad_case or dict(code=c.hex()[:80] + "...", impl_edges=len(edges), model=(m or "no answer")[:300])
     one, rc1, raw1 = deep_job.result()
     pool.shutdown()
     deep_ans = one[0] if one else f"crash:rc={rc1}"
@@ -91,7 +118,7 @@ def check(run):
                            replay="python3 -c \"print('cfg '+'a4'*10923+' 1')\" | .cache/target/debug/etk-vh-analyze"))
     run.corr["distinct"] = len(set(c for _, c in cases))
     run.corr["disagreements"] = dis
-    run.corr["rule"] = ("every opcode byte alone / first / middle / last in a block, feeding a jump target, feeding a branch condition, and on the entry stack; structured multi-block programs; random byte strings incl. truncated pushes; exp, mulmod, signextend in exit expressions; "
+    run.corr["rule"] = ("every opcode byte alone / first / middle / last in a block, feeding a jump target, feeding a branch condition, and on the entry stack; structured multi-block programs; random byte strings incl. truncated pushes; exp, mulmod, signextend in exit expressions; four programs whose initial graph has 31 000 - 90 000 edges (construction and rendering only: refining them takes the implementation ~50 minutes); "
                         "each through Disassembler -> Separator -> annotate -> ControlFlowGraph::new -> refine_shallow -> render in the implementation (outcome must be a rendered graph) and through Model/Pipeline.v (must not be Panic; its initial graph must contain the implementation's refined graph); distinct = distinct byte strings")
     if (not proof_ok or dis) and not found:
         if dis:
